@@ -255,8 +255,8 @@ Proof.
   - replace (go_len starts =? go_len ends) with true by (unfold go_len; lia). cbn [negb].
     unfold go_make. cbn [Z.ltb Z.compare Z.to_nat repeat]. cbv zeta.
     unfold go_range_int, go_len. rewrite Nat2Z.id.
-    change (go_iter _ (zseq 0 (length starts)) [])
-      with (go_iter (events_body ([] ++ starts) ([] ++ ends)) (zseq (Z.of_nat (length (@nil Z))) (length starts)) []).
+    timeout 120 (change (go_iter _ (zseq 0 (length starts)) [])
+      with (go_iter (events_body ([] ++ starts) ([] ++ ends)) (zseq (Z.of_nat (length (@nil Z))) (length starts)) [])).
     rewrite (events_loop starts ends [] [] [] eq_refl El). cbn [after app length].
     fold (events starts ends).
     rewrite (go_sort_map ev_of event_less) by (intros x y; rewrite imp_eventLess; destruct (event_less x y); reflexivity).
